@@ -377,6 +377,8 @@ def odd_cases():
     # roStorySend shapes
     case('StorySend', 'two storyBody elements', B.story_send('B', [B.item('S1')], post=[E('storyBody', B.p('second body'))]))
     case('StorySend', 'empty storyBody', B.story_send('C', []))
+    case('StorySend', 'a storyBody element inside the storyBody', B.story_send('C', [E('storyBody', B.p('inner'), B.item('deep')), B.p('outer'), B.item('S1')]))
+    case('StorySend', 'storyBody children named like the wrapper', B.story_send('B', [B.p('a'), E('storyBody'), E('storyBody', text='t'), B.item('S2')]))
     case('StorySend', 'body with nested storyItem', B.story_send('C', [E('p', E('storyItem', E('itemID', text='deep')), text='para'), B.item('S1')]))
     case('StorySend', 'storyID after the body', B.story_send(ABSENT, [B.item('S1')], slug=False, post=[E('storyID', text='D')]))
     case('StorySend', 'attributes and tail on the message element', (lambda d: (d[4][-1].__setitem__(1, [['x', 'y']]), d[4][-1].__setitem__(3, ' tail '), d)[2])(B.story_send('A', [B.p('x')])))
@@ -457,6 +459,19 @@ def odd_cases():
                      ('ItemDelete', B.item_delete('A', ['I2'])), ('MetaDataReplace', B.metadata_replace([E('roTrigger', text='t')]))]:
         case(cls, 'running order with U+000D', msg, cr_ro)
         out[-1]['ro_text'] = TJ.to_text(cr_ro).replace(CR, '&#13;')
+    # comments, processing instructions and CDATA sections INSIDE ID elements and between children (the text says so;
+    # what counts is the character data)
+    c_ro = TJ.to_text(B.ro_doc([B.story('A', [B.item('I1'), B.item('I2'), B.item('I3')]), st('B')]))
+    c_ro = c_ro.replace('<itemID>I2</itemID>', '<itemID><!-- re-keyed -->I2</itemID>', 1).replace('<storyID>B</storyID>', '<storyID>B<!-- c --></storyID>', 1) \
+               .replace('<itemID>I3</itemID>', '<itemID><![CDATA[I3]]></itemID>', 1)
+    for cls, msg in [('ItemDelete', B.item_delete('A', ['I2', 'I3'])), ('ItemMoveMultiple', B.item_move_multiple('A', ['I3', 'I2'])),
+                     ('EAItemSwap', B.ea('SWAP', {'storyID': 'A'}, [B.ids('itemID', ['I1', 'I2'])])), ('StoryMove', B.story_move(['B', 'A'])),
+                     ('StoryDelete', B.story_delete(['B'])), ('ItemReplace', B.item_replace('A', 'I3', [new_item('N')]))]:
+        case(cls, 'comments / CDATA inside ID elements of the running order', msg, TJ.parse(c_ro))
+        out[-1]['ro_text'] = c_ro
+        m_text = TJ.to_text(msg).replace('<itemID>I2</itemID>', '<itemID>I<!-- split -->2</itemID>').replace('<storyID>B</storyID>', '<storyID><?pi x?>B</storyID>')
+        case(cls, 'comments / PIs inside ID elements of the message', TJ.parse(m_text))
+        out[-1]['msg_text'] = m_text
     # messages addressed to ANOTHER running order (different roID): the merge methods do not look at it
     for cls, msg in [('RunningOrderEnd', B.ro_delete(ro_id='OTHER')), ('StoryAppend', B.story_append([X], ro_id='OTHER')),
                      ('StoryDelete', B.story_delete(['B'], ro_id='OTHER')), ('ReadyToAir', B.ready_to_air(ro_id='OTHER')),
@@ -488,7 +503,9 @@ def odd_cases():
                          ('StoryDelete', B.story_delete(['B'])), ('ReadyToAir', B.ready_to_air())]:
             case(cls, lbl, msg, r2)
     # IDs are opaque strings: look-alikes that differ only by padding, letter case or a comma are different IDs
-    pad = B.ro_doc([st('A'), st('A '), st(' A'), st('a'), B.story('B', [B.item('I1'), B.item('I1 '), B.item(' I1'), B.item('i1')]),
+    HEX = 'ABCDEF0123456789ABCDEF0123456789'
+    pad = B.ro_doc([st('A'), st('A '), st(' A'), st('a'), B.story('B', [B.item('I1'), B.item('I1 '), B.item(' I1'), B.item('i1'), B.item(HEX), B.item(HEX.lower())]),
+                    st(HEX.lower()), st(HEX),
                     st('B ')], pattern='between')
     for cls, lbl, msg in [
             ('StoryDelete', 'padded ref names the padded story', B.story_delete(['A '])),
@@ -515,7 +532,11 @@ def odd_cases():
             ('EAItemDelete', 'padded', B.ea('DELETE', {'storyID': 'B'}, [B.ids('itemID', [' I1', 'I1  '])])),
             ('EAItemSwap', 'padded', B.ea('SWAP', {'storyID': 'B'}, [B.ids('itemID', ['I1', 'I1 '])])),
             ('EAItemMove', 'padded', B.ea('MOVE', {'storyID': 'B', 'itemID': 'I1'}, [B.ids('itemID', ['i1', 'I1 '])])),
-            ('EAItemInsert', 'padded', B.ea('INSERT', {'storyID': 'B', 'itemID': ' I1'}, [[new_item('N')]]))]:
+            ('EAItemInsert', 'padded', B.ea('INSERT', {'storyID': 'B', 'itemID': ' I1'}, [[new_item('N')]])),
+            ('ItemDelete', 'lower-case hex ID', B.item_delete('B', [HEX.lower()])), ('ItemMoveMultiple', 'hex IDs', B.item_move_multiple('B', [HEX.lower(), HEX])),
+            ('EAItemSwap', 'hex IDs', B.ea('SWAP', {'storyID': 'B'}, [B.ids('itemID', [HEX.lower(), 'I1'])])),
+            ('EAItemMove', 'hex IDs', B.ea('MOVE', {'storyID': 'B', 'itemID': HEX}, [B.ids('itemID', [HEX.lower()])])),
+            ('StoryDelete', 'upper-case hex story', B.story_delete([HEX])), ('StoryMove', 'hex stories', B.story_move([HEX, HEX.lower()]))]:
         case(cls, 'look-alike IDs: ' + lbl, msg, pad)
     # roElementAction whose operation attribute is missing, misspelt, lower-case or accompanied by others:
     # classification must answer (UnknownMosFileType or a class), never escape as a built-in exception
@@ -577,6 +598,39 @@ def odd_cases():
             ('EAItemMove', 'source is target in late story', B.ea('MOVE', {'storyID': 'B285', 'itemID': 'B285-b'}, [B.ids('itemID', ['B285-a', 'B285-b'])])),
             ('ItemDelete', 'same item IDs elsewhere', B.item_delete('B199', ['B199-b', 'B198-a']))]:
         case(cls, 'big running order: ' + lbl, msg, big)
+    # IDs longer than any "field limit": two IDs that share their first 128 (255, 256) characters are different IDs
+    for L in (127, 128, 129, 255, 256, 300):
+        P = 'L' * L
+        lro = B.ro_doc([st('A'), B.story(P + 'A', [B.item(P + 'x'), B.item('I1'), B.item(P + 'y')]), st('B'), B.story(P + 'C', [B.item(P + 'x')])], pattern='lead')
+        for cls, lbl, msg in [
+                ('StoryDelete', 'unknown long ID', B.story_delete([P + 'B'])), ('StoryDelete', 'known long ID', B.story_delete([P + 'C', P + 'B'])),
+                ('StoryReplace', 'unknown long ID', B.story_replace(P + 'B', [X])), ('StoryMove', 'long IDs', B.story_move([P + 'C', P + 'A'])),
+                ('StorySend', 'unknown long ID', B.story_send(P + 'B', [B.p('x')])), ('StoryInsert', 'carried long look-alike', B.story_insert('B', [new_story(P + 'B'), new_story(P + 'A')])),
+                ('EAStorySwap', 'long look-alikes', B.ea('SWAP', ABSENT, [B.ids('storyID', [P + 'A', P + 'B'])])),
+                ('ItemDelete', 'unknown long item', B.item_delete(P + 'A', [P + 'z', P + 'y'])), ('ItemDelete', 'story look-alike', B.item_delete(P + 'B', [P + 'x'])),
+                ('EAItemDelete', 'story look-alike', B.ea('DELETE', {'storyID': P + 'B'}, [B.ids('itemID', [P + 'x'])])),
+                ('EAItemDelete', 'item look-alike', B.ea('DELETE', {'storyID': P + 'A'}, [B.ids('itemID', [P + 'z'])])),
+                ('ItemReplace', 'item look-alike', B.item_replace(P + 'A', P + 'z', [new_item('N')])),
+                ('ItemMoveMultiple', 'long items', B.item_move_multiple(P + 'A', [P + 'y', P + 'x']))]:
+            case(cls, f'IDs of {L}+1 characters: {lbl}', msg, lro)
+    # messages that name MANY elements (beyond any "small list" fast path): 33, 35, 64, 65 IDs, with unknown, blank and
+    # repeated ones among them, against a story that holds two items with the same ID
+    many_items = [B.item(f'w{k:03d}') for k in range(80)]
+    many_items.insert(40, B.item('DUP')); many_items.insert(60, B.item('DUP'))
+    mro = B.ro_doc([st('A'), B.story('W', many_items), st('C')] + [B.story(f'Z{k:03d}', []) for k in range(70)])
+    for n in (33, 35, 64, 65):
+        idsn = [f'w{k:03d}' for k in range(n - 5)]
+        for cls, lbl, msg in [
+                ('ItemDelete', 'with a repeated duplicate ID', B.item_delete('W', idsn + ['DUP', 'ZZ', 'DUP', BLANK, 'w000'])),
+                ('EAItemDelete', 'with a repeated duplicate ID', B.ea('DELETE', {'storyID': 'W'}, [B.ids('itemID', ['DUP'] + idsn + ['DUP', 'ZZ', 'w001', 'w079'])])),
+                ('ItemMoveMultiple', 'many sources', B.item_move_multiple('W', idsn + ['w079', 'w078', 'w077', 'w076', 'w075'])),
+                ('EAItemMove', 'many sources', B.ea('MOVE', {'storyID': 'W', 'itemID': 'w079'}, [B.ids('itemID', list(reversed(idsn)) + ['w078', 'w077', 'w076', 'w075', 'DUP'])])),
+                ('StoryDelete', 'many stories', B.story_delete([f'Z{k:03d}' for k in range(n - 3)] + ['ZZ', 'Z000', 'C'])),
+                ('EAStoryDelete', 'many stories', B.ea('DELETE', ABSENT, [B.ids('storyID', [f'Z{k:03d}' for k in range(n)])])),
+                ('EAStoryMove', 'many stories', B.ea('MOVE', {'storyID': 'A'}, [B.ids('storyID', [f'Z{k:03d}' for k in reversed(range(n))])])),
+                ('StoryInsert', 'many carried', B.story_insert('C', [new_story(f'N{k}') for k in range(n - 2)] + [new_story('A'), new_story('N0')])),
+                ('StoryAppend', 'many carried', B.story_append([B.story(f'N{k}', []) for k in range(n)]))]:
+            case(cls, f'{n} named elements: {lbl}', msg, mro)
     # a story with 300 items: the same for item indexes
     wide = B.ro_doc([st('A'), B.story('W', [B.item(f'w{k:03d}') for k in range(300)]), st('C')])
     for cls, lbl, msg in [
@@ -637,6 +691,12 @@ def odd_cases():
     sl_ro = B.ro_doc(stories, pattern='lead', extra=[B.timing_md(duration='1', schema='http://example.org/planning'), B.timing_md(duration='2', schema='S1')])
     for sch in ('http://example.org/planning/', 'http://example.org/PLANNING', ' http://example.org/planning', 's1', 'S1 ', 'S1/'):
         case('MetaDataReplace', f'schema look-alike {sch!r}', B.metadata_replace([B.timing_md(duration='9', schema=sch)]), sl_ro)
+    odd_sch = B.ro_doc(stories, pattern='lead', extra=[
+        E('mosExternalMetadata', E('mosSchema', text='http://ncs/other'), E('mosSchema', text='http://ncs/schema/2'), E('mosPayload', E('keep', text='1'))),
+        E('mosExternalMetadata', E('mosSchema', E('ver', text='2'), text='http://ncs/schema/'), E('mosPayload', E('keep', text='2'))),
+        E('mosExternalMetadata', E('mosSchema', text='http://ncs/schema/'), E('mosPayload', E('keep', text='3')))])
+    for sch in ('http://ncs/schema/2', 'http://ncs/schema/', 'http://ncs/other', "it's"):
+        case('MetaDataReplace', f'schema text against blocks with two / nested mosSchema: {sch!r}', B.metadata_replace([B.timing_md(duration='9', schema=sch)]), odd_sch)
     # roMetadataReplace against running-order metadata blocks without a mosSchema (before / after / instead of a matching one)
     for k, blocks in enumerate([[E('mosExternalMetadata', E('mosPayload', E('x', text='no schema'))), B.timing_md(duration='1', schema='s1')],
                                 [B.timing_md(duration='1', schema='s1'), E('mosExternalMetadata', E('mosPayload'))],
